@@ -38,11 +38,13 @@ def main():
     # ------------------------------------------------------------------ TLC
     cfg = "UnitsManager_large.cfg" if ck.thorough else "UnitsManager.cfg"
     res = ck.tlc("UnitsManager", cfg, coverage=True, workers=16)
-    for act in ("UEnterEU", "UEnterLen", "UExit", "UCall", "URaise", "LStep",
+    for act in ("UEnterEU", "UConstruct", "UEnterObj", "UEnterLen", "UExit", "UCall", "URaise", "LStep",
                 "LReturn", "LRaise", "Unwind", "UCatch"):
         if res["coverage"].get(act, (0, 0))[1] == 0:
             raise MachineryFailure("vacuous: action %s never taken" % act)
     ck.tlc("UnitsManager", "UnitsManager_defect.cfg", count=False,
+           expect_violation="CallerUnitsPreserved")
+    ck.tlc("UnitsManager", "UnitsManager_defect2.cfg", count=False,
            expect_violation="CallerUnitsPreserved")
 
     # --------------------------------------------- recorded traces (code->spec)
@@ -62,7 +64,13 @@ def main():
                 break
             budget[0] -= 1
             x = rng.random()
-            if x < 0.35 and depth < 3:
+            if x < 0.12:
+                # a context-manager object built now and entered later
+                ops.append(("mk", "e%d" % rng.randint(0, 2), rng.choice(EU)))
+            elif x < 0.27 and depth < 3:
+                ops.append(("use", "e%d" % rng.randint(0, 2),
+                            gen_block(depth + 1, budget)))
+            elif x < 0.45 and depth < 3:
                 ops.append(("eu", rng.choice(EU), gen_block(depth + 1, budget)))
             elif x < 0.45 and depth < 3:
                 ops.append(("len", rng.choice(LU), gen_block(depth + 1, budget)))
@@ -74,9 +82,26 @@ def main():
                 ops.append(("try", gen_block(depth, budget)))
         return ops
 
+    pool = {}
+    opened = set()
+
     def run_block(ops):
         for op in ops:
-            if op[0] == "eu":
+            if op[0] == "mk":
+                if op[1] not in opened:
+                    pool[op[1]] = qr.energy_units(op[2])
+            elif op[0] == "use":
+                # context managers are not re-entrant
+                if op[1] in pool and op[1] not in opened:
+                    opened.add(op[1])
+                    try:
+                        with pool[op[1]]:
+                            run_block(op[2])
+                    finally:
+                        opened.discard(op[1])
+                else:
+                    run_block(op[2])
+            elif op[0] == "eu":
                 with qr.energy_units(op[1]):
                     run_block(op[2])
             elif op[0] == "len":
@@ -118,10 +143,36 @@ def main():
                 programs.append(prog)
                 ck.case("call-in-context", (u, name), sample=dict(
                     units=u, call=name))
+        # (a2) context-manager objects built under one set of units and
+        #      entered (also repeatedly, also left by an exception) under
+        #      another
+        U4 = ["1/cm", "eV", "nm", "int"]
+        for ub in U4:
+            for uo in U4:
+                for ui in U4:
+                    if ub == uo:
+                        continue
+                    prog = [("eu", ub, [("mk", "e0", ui)]),
+                            ("eu", uo, [("use", "e0", [("call",
+                                                        "convert_function")]),
+                                        ("call", "molecule_create_get_set"),
+                                        ("try", [("use", "e0",
+                                                  [("raise",)])]),
+                                        ("call", "convert_function")])]
+                    pool.clear()
+                    opened.clear()
+                    tr.take()
+                    run_block(prog)
+                    traces.append(tr.take())
+                    programs.append(prog)
+                    ck.case("prebuilt-context", (ub, uo, ui),
+                            sample=_short(prog))
         # (b) random nested programs with exceptions
-        nprog = 300 if ck.thorough else 40
+        nprog = 400 if ck.thorough else 80
         for k in range(nprog):
             prog = [("try", gen_block(0, [rng.randint(3, 9)]))]
+            pool.clear()
+            opened.clear()
             tr.take()
             run_block(prog)
             traces.append(tr.take())
